@@ -420,6 +420,8 @@ class Prop(SeqProp):
     # ---- oracle-only scenario: a child's create() lands inside the parent's flush / exit -------------------------------
     def extra_scenarios(self, rng, tier):
         n = 4 if tier == "quick" else 24
+        # a removal the operating system refuses (read-only directory) or that is interrupted: the file stays the pool's
+        yield {"kind": "remove-refused"}
         for _ in range(n):
             yield {"kind": "create-during-flush", "parent_files": rng.randint(1, 4), "at_removal": None,
                    "via_exit": rng.random() < 0.5, "seed": rng.randrange(1 << 30)}
@@ -429,9 +431,31 @@ class Prop(SeqProp):
             yield {"kind": "filepool-reenter", "files": rng.randint(1, 4), "fail_first": rng.random() < 0.7,
                    "by_exception": rng.random() < 0.5, "rounds": rng.randint(1, 3)}
 
+    def _remove_refused(self):
+        import signal
+        import subprocess
+        import sys as _sys
+        os.chmod(self.scratch, 0o711)  # the scenario gives up root: the directory has to stay reachable
+        p = subprocess.Popen([_sys.executable, "-m", "harness.removefail", self.scratch], cwd=core.VERIF, stdout=subprocess.PIPE,
+                             stderr=subprocess.STDOUT, text=True, start_new_session=True)
+        try:
+            out, _ = p.communicate(timeout=60)
+        except subprocess.TimeoutExpired:
+            out = "the scenario did not finish within 60 s"
+        finally:
+            try:
+                os.killpg(p.pid, signal.SIGKILL)
+            except Exception:
+                pass
+        if p.returncode == 0 and "DONE" in out:
+            return None
+        return out.strip()[-600:]
+
     def run_extra(self, desc):
         if self.scratch is None:
             self.scratch = core.scratch_dir()
+        if desc["kind"] == "remove-refused":
+            return self._remove_refused()
         if desc["kind"] == "filepool-reenter":
             return core.call_with_alarm(lambda: self._filepool_reenter(desc), 20.0)
         return core.call_with_alarm(lambda: self._create_during_flush(desc), 60.0)
